@@ -13,7 +13,7 @@ claims = {
          TECH + "entry/exit state comparison incl. unwinding through nested scopes; replay and bounded-liveness (reset loop) checks counted at the allocator seam"),
  "C05": ("sim-arena", "5 C05", "SimHeap ledger over the whole run: each granted block released exactly once with the requested alignment and a size between requested and granted, nothing outstanding after drop, poison of released blocks and red zones intact; reset keeps exactly the largest chunk; refusals injected at arbitrary base calls.",
          TECH + "ledger of every base-allocator call checked over the recorded history, refusals at arbitrary call indices"),
- "C06": ("sim-coll", "5 C06", "Tracked elements with a drop ledger in all five vector kinds and their iterators; an unwind is injected at the j-th callback (Clone, closure, iterator next, predicate, Drop) of an operation; never a second drop, never access to a dead element, and at the end of the run every element dropped exactly once unless leaked on purpose or a Drop impl panicked.",
+ "C06": ("sim-coll", "5 C06", "Tracked elements with a drop ledger in all five vector kinds, their iterators and the slice initialisers (init_fill / _with / _iter / init_clone / init_move on alloc_uninit_slice); an unwind is injected at the j-th callback (Clone, closure, iterator next, predicate, Drop) of an operation; never a second drop, never access to a dead element, and at the end of the run every element dropped exactly once unless leaked on purpose or a Drop impl panicked.",
          TECH + "callback-panic injection at arbitrary callback positions; drop ledger as history checker"),
  "C07": ("sim-arena+sim-coll", "5 C07", "Allocator-interface and try_ calls under every SimHeap fault kind must return Err without unwinding; afterwards the C01/C02/C05/C06/C10 oracles keep running on the same arena and the collection model (which did not apply the failed operation) must still match; giant / overflowing requests.",
          TECH + "allocation refusals (k-th call, burst, size limit, byte budget, giant requests) attached to operations; state compared with a model that skipped the failed operation"),
@@ -21,7 +21,7 @@ claims = {
          TECH + "seeded operation sequences against a sequential reference model under simulated chunk sizes / grant policies and injected unwinds (refinement checking; the simulation-specific part is the environment and the faults)"),
  "C09": ("sim-strs", "5 C09", "BumpBox<str>, FixedBumpString, BumpString and MutBumpString run in lock-step with std::string::String on text mixing 1-4 byte characters, NULs and combining marks with every byte index (boundary or not) as argument: contents, return values, panic/no-panic, from_utf8/utf16 (+lossy) on malformed input, formatting with Display impls that fail or unwind mid-way, C-string constructors; core::str::from_utf8 of the raw bytes must succeed after every operation including unwound and failed ones.",
          TECH + "seeded operation sequences against std::String under simulated chunk sizes, allocation refusals and callbacks that fail or unwind (refinement checking; the simulation-specific part is the environment and the faults)"),
- "C10": ("sim-arena", "5 C10", "After every operation the Stats/Chunk identities, list symmetry, strictly growing sizes, header size/alignment per base-allocator kind, position alignment in force, count() = outstanding SimHeap blocks and AnyStats = Stats field by field are checked.",
+ "C10": ("sim-arena", "5 C10", "After every operation the Stats/Chunk identities, list symmetry (small_to_big vs big_to_small vs the list walked from the current chunk through iter_prev/iter_next and prev()/next(), typed and type-erased), strictly growing sizes, header size/alignment per base-allocator kind, position alignment in force, count() = outstanding SimHeap blocks and AnyStats = Stats field by field are checked.",
          TECH + "per-step invariants over the public statistics API, cross-checked with the allocator seam's ledger"),
  "C12": ("sim-arena", "5 C12", "At the base-allocator seam: every requested chunk layout is well formed (multiple of 16 / header alignment, header alignment, header + request), each later chunk >= 2x previous - 16, a primitive request never obtains two chunks, giant layouts never arrive wrapped; with_capacity fits its layout.",
          TECH + "observation of every chunk request at the base-allocator seam under over-granting policies and 5 header layouts"),
